@@ -492,11 +492,11 @@ def judge(case):
 def plan(tier, seed):
     specs = []
     for i in range(12):
-        specs.append(dict(name="histories-%d" % i, kind="hist", n=600 if tier == "quick" else 6000))
+        specs.append(dict(name="histories-%d" % i, kind="hist", n=800 if tier == "quick" else 20000))
     for i in range(8):
-        specs.append(dict(name="bursts-%d" % i, kind="burst", n=200 if tier == "quick" else 3000))
+        specs.append(dict(name="bursts-%d" % i, kind="burst", n=250 if tier == "quick" else 10000))
     for i in range(4):
-        specs.append(dict(name="iocb-%d" % i, kind="io", n=500 if tier == "quick" else 5000))
+        specs.append(dict(name="iocb-%d" % i, kind="io", n=600 if tier == "quick" else 20000))
     specs.append(dict(name="wrap", kind="wrap", tier=tier))
     specs.append(dict(name="twins", kind="twins"))
     return specs
